@@ -84,7 +84,7 @@ TraceSpec == TraceInit /\ [][TraceNext]_tvars
 \* the model's laws on the recorded states, over the keys present in the data
 AuthorsPresent == {ops[id].author : id \in DOMAIN ops}
 LogsPresent == {ops[id].log : id \in DOMAIN ops}
-C08_HeightsSummarise == HeightsSummarise(AuthorsPresent, LogsPresent)
+C08_HeightsSummarise == HeightsSummarise(AuthorsPresent, {LogsPresent})
 C08_RowsPartition == RowsPartition
 
 TraceAccepted ==
